@@ -8,7 +8,9 @@ import (
 	"runtime/debug"
 	"sort"
 	"strings"
+	"strconv"
 	"sync/atomic"
+	"unsafe"
 
 	"github.com/couchbase/moss"
 )
@@ -364,6 +366,7 @@ type collRun struct {
 	hist     map[string]int // label histogram
 	blind    bool           // observe only at reopen and at the end of the case
 	kept     []keptValue    // values returned by copying Gets, with a private copy of each
+	aliasOK  int            // kept[:aliasOK] have been looked up in /proc/self/maps
 	reported map[string]bool
 }
 
@@ -417,6 +420,54 @@ func (cr *collRun) checkIntact(when string) {
 	if bad != "" {
 		cr.violation("spec:copied-value-not-intact", bad)
 	}
+}
+
+// storeMappings: the address ranges of this process that map a moss data file.
+func storeMappings() [][2]uintptr {
+	b, err := os.ReadFile("/proc/self/maps")
+	if err != nil {
+		return nil
+	}
+	var rs [][2]uintptr
+	for _, ln := range strings.Split(string(b), "\n") {
+		if !strings.Contains(ln, ".moss") {
+			continue
+		}
+		f := strings.Fields(ln)
+		ab := strings.SplitN(f[0], "-", 2)
+		if len(ab) != 2 {
+			continue
+		}
+		lo, e1 := strconv.ParseUint(ab[0], 16, 64)
+		hi, e2 := strconv.ParseUint(ab[1], 16, 64)
+		if e1 == nil && e2 == nil {
+			rs = append(rs, [2]uintptr{uintptr(lo), uintptr(hi)})
+		}
+	}
+	return rs
+}
+
+// checkAliases: a value a copying Get returned must not live inside the mapping of a
+// data file (it could not stay intact after the file is unmapped); looked up once per
+// observation for the values retained since the last one, while nothing can be unmapped.
+func (cr *collRun) checkAliases() {
+	if cr.aliasOK >= len(cr.kept) {
+		return
+	}
+	maps := storeMappings()
+	for _, k := range cr.kept[cr.aliasOK:] {
+		if len(k.got) == 0 {
+			continue
+		}
+		p := uintptr(unsafe.Pointer(&k.got[0]))
+		for _, r := range maps {
+			if p >= r[0] && p < r[1] {
+				cr.violation("spec:copied-value-not-intact",
+					fmt.Sprintf("value %q returned by a copying %s lives inside the mapping of a data file", k.want, k.what))
+			}
+		}
+	}
+	cr.aliasOK = len(cr.kept)
 }
 
 func (cr *collRun) obs() sx {
@@ -506,6 +557,7 @@ func (cr *collRun) step(label sx) {
 	}
 	cr.emit(L("step", label, cr.obs()))
 	cr.checkIntact("after a later step")
+	cr.checkAliases()
 }
 
 func isEmptyStack(s *moss.VerifStack) bool {
